@@ -156,3 +156,30 @@ def trusted(name, clause, conformance=None):
         return f
 
     return deco
+
+
+def record_init(*params, **defaults):
+    """Constructor model for attribute-bag classes: stores every argument under its parameter name.
+
+    record_init("include", "exclude", pre=False) models `def __init__(self, include=None, exclude=None, pre=False)`
+    as `self.<name> = <argument or default>` (missing parameters default to None unless given in `defaults`).
+    Python-level arguments (lambdas, classes) are kept as python-level fields."""
+    names = list(params) + [k for k in defaults if k not in params]
+
+    def init(ex, st, self, args, kwargs, node):
+        from .core import Unsupported, Val
+
+        if len(args) > len(names):
+            raise Unsupported("constructor arity", node)
+        bound = dict(zip(names, args))
+        for k, v in kwargs.items():
+            if k not in names:
+                raise Unsupported(f"constructor keyword {k}", node)
+            bound[k] = v
+        for n in names:
+            v = bound.get(n)
+            if v is None:
+                v = Val.const(defaults.get(n))
+            ex.write_field(st, self, n, v, node)
+
+    return init
